@@ -229,6 +229,11 @@ def run(ctx, rep):
     sizest = [i for i in s.all_insts() if i.op == 'store' and s.expr(i.ops[1]) == '&size']
     rep.check(len(sizest) == 1 and 'blockmax' in s.expr(sizest[0].ops[0]) and 'block_size' in s.expr(sizest[0].ops[0]) and any(c.callee == 'parity_allocated_size' for c in s.calls()), 'R-C06-8', 'size = parity_allocated_size(state) * block_size', s.file, s.expr(sizest[0].ops[0]) if sizest else '?', function='state_sync', construct='size')
     save_before_clobber_rule(P, rep, 'R-C06-12')
+    from .C17 import chsize_full_size_rule
+    chsize_full_size_rule(P, rep, 'R-C06-14', 'state_check')
+    from .C11 import need_write_rule
+    need_write_rule(P, rep, 'R-C06-15')
+    chsize_full_size_rule(P, rep, 'R-C06-14s', 'state_sync')
     from .C07 import past_hash_cleared_rule
     past_hash_cleared_rule(P, rep, 'R-C06-10d')
 
